@@ -43,6 +43,8 @@ func checkC10(p *Prog, r *Report) {
 
 	r.Rule("R4", "each per-entity registry removal publishes its removal event exactly in the branch in which the entry is not kept; RemoveRemoteDeviceConnection publishes exactly one device-removal event")
 	c10Events(p, r)
+	r.Rule("R11", "removing one peer does not detach the others from the stack's own event handling: the core handler is unsubscribed only under 'the remote-device map is empty', the size read after the removal in the same critical section (shared with C15-R8)")
+	coreUnsubscribeRule(p, ls, r, "R11")
 	r.Assumes("reflect.DeepEqual and getters are uninterpreted; the retain predicates decide which components are compared and how the comparisons are combined")
 }
 
